@@ -279,7 +279,10 @@ def main(argv=None):
     # ---- external discharge of pending queries
     pend = []
     for r in results:
+        has_feasible = any(pt.get('twin') == 'sat' for pt in r.get('paths', []))
         for p in r.get('pending', []):
+            if p['kind'] == 'twin' and tier == 'quick' and has_feasible:
+                continue    # reachability of this path stays 'unknown' (it is then not counted as a feasible state)
             pend.append((r, p))
 
     solve_deadline = time.time() + float(os.environ.get('SYMOPT_SOLVE_BUDGET_S', '240' if tier == 'quick' else '3600'))
